@@ -193,6 +193,10 @@ def gen_cfg(rng, prop, tier, allow_big=True):
         cfg["hook_reads"] = rng.sample(("size", "height", "path", "root", "children", "depth", "leaves", "siblings", "descendants"), rng.randint(1, 3))
     if rng.random() < 0.25:
         cfg["hook_ret"] = rng.choice((False, 0, True, "veto", 1))
+    if big and cfg["profile"] == "persist":
+        # the unbounded rollback recursion (finding C03-4) re-attaches every child at each of its ~300 levels:
+        # on a node with hundreds of children that is minutes of work, not a hang
+        cfg["profile"] = "once"
     if big:
         # recursive attributes (size, height, descendants) read from inside a hook need a stack proportional
         # to the depth; that is a limit of Python/anytree, not a property
@@ -396,7 +400,9 @@ def gen_op(rng, model, cfg, step):
                 # the root of n's own tree is moved below a child that is still to be attached: the
                 # per-child loop check has to see the new situation
                 r = model.root(op["n"])
-                if r != op["n"] and model.root(xs[-1]) != r:
+                # (the child must be a root of its own: were it below an earlier element of xs, that element's
+                # attach - whose loop check precedes its hooks - could no longer see the move)
+                if r != op["n"] and model.parent[xs[-1]] is None and xs[-1] != r:
                     # ... and it has to happen before that child's own attach begins (its loop check comes
                     # before its _pre_attach hook; a move at that late point defeats any implementation)
                     first = [i for i, ev in enumerate(exp.trace) if ev[0] in PARENT_HOOKS and ev[1] == xs[-1]]
@@ -818,6 +824,7 @@ def run(cfg, ops=None, rng=None, extra=None, pre_gen=None, handle=None):
                 or last
                 or (obs_every and step % obs_every == obs_every - 1)
                 or (exp.exc is not None)  # the model says 'refused' but the call went through: look
+                or bool(world.acted)  # a hook moved a node: re-synchronise the model from what is there
             )
             if not observe:
                 apply_op(model, op, newidx)
